@@ -9,11 +9,17 @@ RULE = ("MC: exhaustive TLC runs of the Adnl byte-level state machine (real SHA-
         "from {0,1,3,4,60,1000,65535} x target frame/region x segmentation) executed step by step against liteclient.NewConnection/"
         "Send/Responses over loopback TCP through the scripted reference server, and its spec-produced server->client byte stream "
         "fed to liteclient.ParsePacket; delivered payloads, counts, read sizes and failure are compared with the specification's. "
+        "Every packet object handed out by Responses()/ParsePacket is kept (not copied) and re-read after each later packet and at the end; "
+        "a held payload that no longer equals the sent one is C11:payload-changed-after-delivery (Recheck events, judged by Adnl_Trace). "
         "C->S: every executed connection plus free-running echo sessions (random sizes 0..65536) is recorded (server seed, raw "
         "bytes as they arrived, API-level sends/deliveries) and Adnl_Trace decrypts and verifies it with Prim. "
         "distinct = scripts replayed (two modes each) + recorded connections accepted.")
 
-NCLS = 41
+NCLS = 42
+# divergences that are hard evidence by themselves: an object handed out by the API holds bytes other than the sent
+# payload while TLC verifies on the recorded stream that the server sent the right ones; no socket or timer is involved
+# in what was observed, and whether the recycled buffer is hit again depends on the Go scheduler - so no re-run is demanded
+HARD = ("payload-changed-after-delivery", "client-delivered-other-payload")
 
 
 class Crash(Exception):
@@ -85,6 +91,9 @@ def check_generated(ck, vecs):
                 raise Infra("generator: script %d (%s) did not hit frame %d (hit=%s)" % (v["id"], name, v["j"], v["hit"]))
             if f == "none" and v["hit"] != [0, 0]:
                 raise Infra("generator: fault-free script %d has a hit" % v["id"])
+    shrink = [v for v in classes.get("none-s2c-shrink-none", []) if v["steps"][-1]["nd"][1] == 5]
+    if not shrink:
+        raise Infra("generator: no fault-free script with non-growing server->client payloads was delivered completely")
     sizes = set()
     for v in vecs:
         for s in v["steps"]:
@@ -184,6 +193,14 @@ def run(ck):
     # anything that involves real sockets and timers is run a second time before it is reported
     for r in suspects:
         v = by_id[r["vec"]]
+        if r.get("what") in HARD:
+            ck.report(key_of_result(r), "script %d (%s), mode %s, step %s: %s; specification requires %s, observed %s" % (
+                r["vec"], r["cls"], r["mode"], r.get("i"),
+                "a packet handed out earlier no longer holds the payload that was sent once later packets have been read"
+                if r["what"] == HARD[0] else "the packet handed out does not hold the payload that was sent",
+                json.dumps(short(r.get("exp", {}))), json.dumps(short(r.get("got", {})))),
+                {"kind": "vector", "mode": r["mode"], "vector": v})
+            continue
         try:
             rs2, _ = run_replay(ck, 90 + len(ck.violations), [v], tag="again")
         except Crash as c:
@@ -239,7 +256,8 @@ def run(ck):
             head = rj["segment"][0]
             e = rj["event"]
             vec = by_id.get(head.get("id")) if head.get("src") == "script" else None
-            ck.report("C11:trace:%s:%s%s" % (head.get("cls"), e.get("k"), ("-" + e["d"]) if "d" in e else ""),
+            ck.report("C11:payload-changed-after-delivery" if e.get("k") == "Recheck" else
+                      "C11:trace:%s:%s%s" % (head.get("cls"), e.get("k"), ("-" + e["d"]) if "d" in e else ""),
                       "recorded connection is not a behaviour of Adnl: segment at line %d (%s) accepted %d of %d events; rejected event %s" % (
                           rj["seg"], head.get("cls"), rj["accepted"], rj["length"], json.dumps(short(e))),
                       {"kind": "trace", "segment": rj["segment"], "rejected_index": rj["accepted"], "vector": vec})
@@ -255,7 +273,8 @@ def run(ck):
         seg = None
         for a, b in zip(starts, starts[1:]):
             s = evs[a:b]
-            if sum(1 for e in s if e["k"] == "Dlv" and e["d"] == "s2c" and e["hex"]) >= 1 and s[-1]["k"] == "Quiesce" and len(s[-1]) == 2:
+            if sum(1 for e in s if e["k"] == "Dlv" and e["d"] == "s2c" and e["hex"]) >= 1 and s[-1]["k"] == "Quiesce" and len(s[-1]) == 2 \
+                    and any(e["k"] == "Recheck" for e in s):
                 seg = s
                 break
         if seg is None:
@@ -277,6 +296,9 @@ def run(ck):
         cans.append(("one delivery event dropped", s, i_dlv[0] + 1))
         s = copy.deepcopy(seg); s[i_dlv[0]]["hex"] = flipped(s[i_dlv[0]]["hex"], 0)
         cans.append(("one delivered payload altered", s, i_dlv[0] + 1))
+        i_rc = [i for i, e in enumerate(seg) if e["k"] == "Recheck"]
+        s = copy.deepcopy(seg); s[i_rc[-1]]["sha"] = flipped(s[i_rc[-1]]["sha"], 5)
+        cans.append(("one re-read of a held packet reports other content", s, i_rc[-1] + 1))
         cp = os.path.join(ck.work, "canary_trace.ndjson")
         vlib.write_ndjson(cp, [e for _, s, _ in cans for e in s] + [{"k": "End"}])
         st, trn, ok, evn = ck.states, ck.transitions, ck.traces_ok, ck.evaluations
